@@ -1047,9 +1047,19 @@ class Lowerer:
         first, last, lam = args
         l = lam
         while l['kind'] != 'LambdaExpr':
-            if not l.get('inner'): raise Unsupported('std::sort comparator is not a lambda')
+            if l['kind'] == 'DeclRefExpr' and (l.get('referencedDecl') or {}).get('kind') in ('FunctionDecl', 'CXXMethodDecl'):
+                break
+            if not l.get('inner'): raise Unsupported('std::sort comparator is neither a lambda nor a function')
             l = l['inner'][0]
-        lname, caps = self.lower_lambda(l)
+        if l['kind'] == 'LambdaExpr':
+            lname, caps = self.lower_lambda(l)
+        else:
+            # comparator given as a (static / free) function of the library: the same model, the function's lowered body is the comparator
+            f = self.ix.fn_by_id.get(l['referencedDecl']['id'])
+            if f is None: raise Unsupported('std::sort comparator function %s is not a library function with a body' % l['referencedDecl'].get('name'))
+            lname = self.fn_cname(f); caps = []
+            self.cur.callees.add(lname)
+            self.rule('std::sort comparator is a named function')
         it = ct(first)
         fname = 'sort_%s' % lname
         self.cur.callees.add(fname)
